@@ -246,11 +246,13 @@ _BOTH = [SQLITE_MIGRATION_SOURCE, _DBOS_SOURCE] if _DBOS_SOURCE is not None else
 NDBOS = len(iter_migration_files(_DBOS_SOURCE[1])) if _DBOS_SOURCE is not None else 0
 
 
-def _migrate_both(path: str, sources) -> None:
-    conn = sqlite3.connect(path, timeout=30.0)
+def _migrate_both(path: str, sources, commit: bool = True) -> None:
+    """commit=False is exactly what DBOSRuntime.run_migrations does: sqlite3.connect(db_path); run_migrations(conn, sources); conn.close()"""
+    conn = sqlite3.connect(path, timeout=30.0) if commit else sqlite3.connect(path)
     try:
         _mig.run_migrations(conn, sources)
-        conn.commit()
+        if commit:
+            conn.commit()
     finally:
         conn.close()
 
@@ -268,9 +270,10 @@ def _book_all(path: str):
             what="two migration packages in one database, as the DBOS runtime runs them (sources = [server, dbos]): from a fresh file, from a "
                  "server-only database at any server version (bookkept or legacy user_version, current or as-released files), or from a "
                  "database where only the first j dbos migrations were applied — run_migrations(conn, [server, dbos]) ends with the schema "
-                 "and the bookkeeping rows of a fresh database migrated with both sources, and a re-run changes nothing",
+                 "and the bookkeeping rows of a fresh database migrated with both sources — durably, whether the caller commits afterwards or just "
+                 "closes the connection as the DBOS runtime does — and a re-run changes nothing",
             bounds={"start": "fresh / server prefix k / legacy k / released prefix k / released legacy k, then dbos prefix j", "k": "0..NMIG", "j": "0..NDBOS"})
-def ob_two_sources(kind: int, k: int, j: int) -> bool:
+def ob_two_sources(kind: int, k: int, j: int, commit: bool = True) -> bool:
     """
     pre: _BOTH is not None
     pre: 0 <= kind <= 4 and 0 <= k and (kind != 0 or k == 0) and (k <= NMIG if kind <= 2 else k <= NREL) and 0 <= j <= NDBOS
@@ -280,6 +283,7 @@ def ob_two_sources(kind: int, k: int, j: int) -> bool:
     kind = pick_int(kind, 0, 4)
     k = pick_int(k, 0, max(NMIG, NREL))
     j = pick_int(j, 0, NDBOS)
+    commit = True if commit else False      # False: the caller closes the connection without committing (the DBOS runtime's entry point)
     with TmpDir() as d:
         ref = os.path.join(d, "ref.db")
         sqlite3.connect(ref).close()
@@ -295,9 +299,9 @@ def ob_two_sources(kind: int, k: int, j: int) -> bool:
                 _migrate_both(path, _BOTH)
             finally:
                 _mig.iter_migration_files = real
-        _migrate_both(path, _BOTH)
-        got_schema, got_book = _schema(path), _book_all(path)
+        _migrate_both(path, _BOTH, commit)
+        got_schema, got_book = _schema(path), _book_all(path)       # read through NEW connections: only what is durable counts
         if got_schema != want_schema or got_book != want_book:
             return False
-        _migrate_both(path, _BOTH)
+        _migrate_both(path, _BOTH, commit)
         return _schema(path) == got_schema and _book_all(path) == got_book
